@@ -269,9 +269,9 @@ def _work_random(args):
 def check(run):
     common.import_repo()
     quick = run.quick
-    # quick: files of <= 4 molecules, orders of <= 3 topologies incl. the clone X; thorough: files of <= 6 molecules with every
+    # quick: files of <= 4 molecules, orders of <= 3 topologies incl. the clone X; thorough: files of <= 5 molecules with every
     # order over the four real species, and files of <= 4 molecules with every order of <= 4 topologies incl. the clone
-    blist = [(4, 'TRUE', 'TRUE', 3)] if quick else [(6, 'TRUE', 'FALSE', 4), (4, 'TRUE', 'TRUE', 4)]
+    blist = [(4, 'TRUE', 'TRUE', 3)] if quick else [(5, 'TRUE', 'FALSE', 4), (4, 'TRUE', 'TRUE', 4)]
     behs = []
     for b in blist:
         res = tlc.run('MC_Recognise', MC_CFG % b, run.scratch, workers=16, timeout=6000, dump=True, coverage=True, heap='16g')
